@@ -14,7 +14,7 @@ CONSTANTS
   ReadSizes,  \* buffer sizes offered to Recv
   Ticks,      \* amounts of time that may pass in one step (ms)
   MaxBytes,   \* bound on bytes written per endpoint
-  MaxDrop, MaxDup, MaxNet, MaxTime,
+  MaxDrop, MaxDup, MaxNet, MaxTime, MaxForge,
   Writers,    \* endpoints whose application writes (subset of {1, 2})
   SnOff,      \* <<initial sequence number of endpoint 1, of endpoint 2>>
   ClkOff,     \* initial value of the millisecond clock
@@ -31,11 +31,12 @@ VARIABLES k,      \* k[e]: endpoint state
           rd,     \* rd[e]: reader history at e: [off: bytes returned so far, bad: a returned range was not the next one, msgs: lengths returned]
           wr,     \* wr[e]: writer history at e: lengths accepted by Send, in order
           phase,  \* 0: any action; e in {1,2}: only Flush(e) next, then Flush(e+1) (a round); 10+e: only Flush(e) next, then free
+          reinfl, \* reinfl[e]: while latched, a later flush of e made a fast/early retransmission (which re-inflates cwnd)
           latch,  \* latch[e]: snd_una at the last flush of e that declared a timeout loss (-1: none since una moved)
           obs,    \* observation of the last step (return value, datagrams emitted) -- compared with the code, hidden by VIEW
           act     \* the last action (name and arguments)
 
-vars == <<k, net, now, elapsed, faults, rd, wr, phase, latch, obs, act>>
+vars == <<k, net, now, elapsed, faults, rd, wr, phase, latch, reinfl, obs, act>>
 Ends == {1, 2}
 Peer(e) == 3 - e
 
@@ -47,15 +48,15 @@ Configure(e) ==
   IN [k3 EXCEPT !.stream = Cfg.stream,
                 !.snd_una = U(SnOff[e]), !.snd_nxt = U(SnOff[e]), !.rcv_nxt = U(SnOff[Peer(e)])]
 
-NoObs == [ret |-> 0, out |-> <<>>, data |-> <<>>, adm |-> NoAdm, e |-> 0, latched |-> FALSE]
+NoObs == [ret |-> 0, out |-> <<>>, data |-> <<>>, adm |-> NoAdm, e |-> 0, latched |-> FALSE, reinfl |-> FALSE]
 
 Init ==
   /\ k = [e \in Ends |-> Configure(e)]
   /\ net = <<>> /\ now = U(ClkOff) /\ elapsed = 0
-  /\ faults = [drop |-> 0, dup |-> 0]
+  /\ faults = [drop |-> 0, dup |-> 0, forge |-> 0]
   /\ rd = [e \in Ends |-> [off |-> 0, bad |-> FALSE, msgs |-> <<>>]]
   /\ wr = [e \in Ends |-> <<>>]
-  /\ latch = [e \in Ends |-> -1]
+  /\ latch = [e \in Ends |-> -1] /\ reinfl = [e \in Ends |-> FALSE]
   /\ phase = 0
   /\ obs = NoObs
   /\ act = [name |-> "Init", e |-> 0, a |-> 0, b |-> 0]
@@ -65,6 +66,11 @@ LatchAfter(e, kNew, adm) ==
   LET cur == IF latch[e] # -1 /\ kNew.snd_una # latch[e] THEN -1 ELSE latch[e]
   IN [latch EXCEPT ![e] = IF adm.lost > 0 /\ adm.nocwnd = 0 THEN kNew.snd_una ELSE cur]
 Latched(e, kOld) == latch[e] # -1 /\ kOld.snd_una = latch[e]
+ReinflAfter(e, kOld, kNew, adm) ==
+  LET stillLatched == Latched(e, kOld) /\ kNew.snd_una = kOld.snd_una
+  IN [reinfl EXCEPT ![e] = IF adm.lost > 0 /\ adm.nocwnd = 0 THEN FALSE          \* a new loss (re)starts the latch
+                           ELSE IF ~stillLatched THEN FALSE
+                           ELSE @ \/ adm.change > 0]
 
 ToNet(e, out) == [i \in 1..Len(out) |-> [dst |-> Peer(e), dg |-> [segs |-> out[i].segs, short |-> FALSE], size |-> out[i].size]]
 
@@ -77,7 +83,7 @@ Send(e, n) ==
        /\ phase' = IF Drive = "tick" /\ r.ret = 0 THEN 10 + e ELSE 0
   /\ phase = 0
   /\ act' = [name |-> "Send", e |-> e, a |-> n, b |-> 0]
-  /\ UNCHANGED <<net, now, elapsed, faults, rd, latch>>
+  /\ UNCHANGED <<net, now, elapsed, faults, rd, latch, reinfl>>
 
 (* the ranges returned must continue exactly where the previous Recv stopped *)
 RECURSIVE Contig(_, _)
@@ -92,7 +98,7 @@ Recv(e, buflen) ==
        /\ obs' = [NoObs EXCEPT !.ret = r.ret, !.data = r.data]
   /\ phase = 0
   /\ act' = [name |-> "Recv", e |-> e, a |-> buflen, b |-> 0]
-  /\ UNCHANGED <<net, now, elapsed, faults, wr, latch, phase>>
+  /\ UNCHANGED <<net, now, elapsed, faults, wr, latch, reinfl, phase>>
 
 Flush(e) ==
   /\ \/ phase = 0 /\ Drive = "free" /\ phase' = 0
@@ -101,8 +107,8 @@ Flush(e) ==
   /\ LET r == FlushOp(k[e], now, TRUE) IN
        /\ k' = [k EXCEPT ![e] = r.k]
        /\ net' = net \o ToNet(e, r.out)
-       /\ obs' = [NoObs EXCEPT !.ret = r.ret, !.out = r.out, !.adm = r.adm, !.e = e, !.latched = Latched(e, k[e])]
-       /\ latch' = LatchAfter(e, r.k, r.adm)
+       /\ obs' = [NoObs EXCEPT !.ret = r.ret, !.out = r.out, !.adm = r.adm, !.e = e, !.latched = Latched(e, k[e]), !.reinfl = reinfl[e]]
+       /\ latch' = LatchAfter(e, r.k, r.adm) /\ reinfl' = ReinflAfter(e, k[e], r.k, r.adm)
   /\ act' = [name |-> "Flush", e |-> e, a |-> 0, b |-> 0]
   /\ UNCHANGED <<now, elapsed, faults, rd, wr>>
 
@@ -110,8 +116,8 @@ Update(e) ==
   /\ LET r == UpdateOp(k[e], now) IN
        /\ k' = [k EXCEPT ![e] = r.k]
        /\ net' = net \o ToNet(e, r.out)
-       /\ obs' = [NoObs EXCEPT !.ret = CheckOp(r.k, now), !.out = r.out, !.adm = r.adm, !.e = e, !.latched = Latched(e, k[e])]
-       /\ latch' = LatchAfter(e, r.k, r.adm)
+       /\ obs' = [NoObs EXCEPT !.ret = CheckOp(r.k, now), !.out = r.out, !.adm = r.adm, !.e = e, !.latched = Latched(e, k[e]), !.reinfl = reinfl[e]]
+       /\ latch' = LatchAfter(e, r.k, r.adm) /\ reinfl' = ReinflAfter(e, k[e], r.k, r.adm)
   /\ phase = 0 /\ Drive = "free"
   /\ act' = [name |-> "Update", e |-> e, a |-> 0, b |-> 0]
   /\ UNCHANGED <<now, elapsed, faults, rd, wr, phase>>
@@ -128,8 +134,8 @@ Deliver(i, keep) ==
      IN /\ k' = [k EXCEPT ![d.dst] = r.k]
         /\ net' = rest \o ToNet(d.dst, r.out)
         /\ obs' = [NoObs EXCEPT !.ret = r.ret, !.out = r.out, !.adm = r.adm, !.e = d.dst,
-                                 !.latched = Latched(d.dst, k[d.dst]) /\ r.k.snd_una = k[d.dst].snd_una]
-        /\ latch' = LatchAfter(d.dst, r.k, r.adm)
+                                 !.latched = Latched(d.dst, k[d.dst]) /\ r.k.snd_una = k[d.dst].snd_una, !.reinfl = reinfl[d.dst]]
+        /\ latch' = LatchAfter(d.dst, r.k, r.adm) /\ reinfl' = ReinflAfter(d.dst, k[d.dst], r.k, r.adm)
   /\ faults' = IF keep = 1 THEN [faults EXCEPT !.dup = @ + 1] ELSE faults
   /\ phase = 0
   /\ act' = [name |-> "Deliver", e |-> net[i].dst, a |-> i, b |-> keep]
@@ -142,7 +148,7 @@ Drop(i) ==
   /\ obs' = NoObs
   /\ phase = 0
   /\ act' = [name |-> "Drop", e |-> net[i].dst, a |-> i, b |-> 0]
-  /\ UNCHANGED <<k, now, elapsed, rd, wr, latch, phase>>
+  /\ UNCHANGED <<k, now, elapsed, rd, wr, latch, reinfl, phase>>
 
 Tick(d) ==
   /\ elapsed + d <= MaxTime
@@ -150,10 +156,12 @@ Tick(d) ==
   /\ obs' = NoObs
   /\ phase = 0 /\ phase' = IF Drive = "tick" THEN 1 ELSE 0
   /\ act' = [name |-> "Tick", e |-> 0, a |-> d, b |-> 0]
-  /\ UNCHANGED <<k, net, faults, rd, wr, latch>>
+  /\ UNCHANGED <<k, net, faults, rd, wr, latch, reinfl>>
 
 (* a forged datagram (one segment) fed straight to e: fields are relative to e's current state *)
 Forge(e, f) ==
+  /\ faults.forge < MaxForge
+  /\ faults' = [faults EXCEPT !.forge = @ + 1]
   /\ LET seg == [cmd |-> f.cmd, frg |-> f.frg, wnd |-> f.wnd, ts |-> U(now + f.dts),
                  sn  |-> IF f.cmd = CMD_ACK THEN U(k[e].snd_una + f.dsn) ELSE U(k[e].rcv_nxt + f.dsn),
                  una |-> U(k[e].snd_una + f.duna), len |-> f.len, off |-> -1, bad |-> f.bad]
@@ -161,11 +169,11 @@ Forge(e, f) ==
      IN /\ k' = [k EXCEPT ![e] = r.k]
         /\ net' = net \o ToNet(e, r.out)
         /\ obs' = [NoObs EXCEPT !.ret = r.ret, !.out = r.out, !.adm = r.adm, !.e = e,
-                                 !.latched = Latched(e, k[e]) /\ r.k.snd_una = k[e].snd_una]
-        /\ latch' = LatchAfter(e, r.k, r.adm)
+                                 !.latched = Latched(e, k[e]) /\ r.k.snd_una = k[e].snd_una, !.reinfl = reinfl[e]]
+        /\ latch' = LatchAfter(e, r.k, r.adm) /\ reinfl' = ReinflAfter(e, k[e], r.k, r.adm)
   /\ phase = 0
   /\ act' = [name |-> "Forge", e |-> e, a |-> 0, b |-> 0, f |-> f]
-  /\ UNCHANGED <<now, elapsed, faults, rd, wr, phase>>
+  /\ UNCHANGED <<now, elapsed, rd, wr, phase>>
 
 Next ==
   \/ \E e \in Ends, n \in WriteSizes : Send(e, n)
@@ -199,11 +207,14 @@ NoRetrans == \A e \in Ends : k[e].retrans = 0 /\ \A i \in 1..Len(k[e].snd_buf) :
 AdmitBelowWindow ==
   obs.adm.n > 0 => obs.adm.after <= Min(obs.adm.swnd, Min(obs.adm.rwnd, IF obs.adm.nocwnd = 0 THEN obs.adm.cwnd ELSE obs.adm.swnd))
 (* C04: with congestion control on, nothing new is admitted after a timeout loss until snd_una has moved *)
-NoAdmitAfterLoss == obs.latched => obs.adm.n = 0
+(* The pinned code violates the clause in one corner (known finding C04/NoAdmitAfterLoss_Reinflated): a fast or early *)
+(* retransmission in a later flush sets cwnd = ssthresh + resend, which can exceed the number outstanding.          *)
+NoAdmitAfterLoss       == obs.latched /\ ~obs.reinfl => obs.adm.n = 0
+NoAdmitAfterLossStrict == obs.latched => obs.adm.n = 0
 UnaMonotone == [][\A e \in Ends : SDiff(k'[e].snd_una, k[e].snd_una) >= 0 /\ SDiff(k'[e].rcv_nxt, k[e].rcv_nxt) >= 0]_vars
 
 (* projection compared with the implementation after every step *)
 Proj == [k |-> k, net |-> net, now |-> elapsed, obs |-> obs]
-View == <<k, net, now, faults, rd, wr, latch, phase>>
+View == <<k, net, now, faults, rd, wr, latch, reinfl, phase>>
 NetBound == Len(net) <= MaxNet
 =============================================================================
